@@ -100,7 +100,7 @@ theorem pmerge_ne_nil (new old : Pend) (h : new ≠ [] ∨ old ≠ []) : pmerge 
   | nil => simpa using h
   | cons a r ih => simp only [List.foldl_cons]; exact ih _ (Or.inr (passign_ne_nil _ _ _))
 
-theorem validate_sorted (kvs : List (Col × Inp)) (p : Pend) (h : validate kvs = some p) : PSorted p := by
+theorem validate_sorted (enc : Col → Val → Val) (kvs : List (Col × Inp)) (p : Pend) (h : validate enc kvs = some p) : PSorted p := by
   induction kvs generalizing p with
   | nil => simp [validate] at h; subst h; simp [PSorted]
   | cons a r ih =>
@@ -112,7 +112,7 @@ theorem validate_sorted (kvs : List (Col × Inp)) (p : Pend) (h : validate kvs =
       obtain ⟨q, hq, rfl⟩ := h
       exact passign_sorted _ _ _ (ih q hq)
 
-theorem validate_nil_iff (kvs : List (Col × Inp)) (h : validate kvs = some []) : kvs = [] := by
+theorem validate_nil_iff (enc : Col → Val → Val) (kvs : List (Col × Inp)) (h : validate enc kvs = some []) : kvs = [] := by
   cases kvs with
   | nil => rfl
   | cons a r =>
@@ -170,7 +170,7 @@ structure FlagOK (cfg : Cfg) (o : Inst) : Prop where
 structure ValOK (cfg : Cfg) (db : Cls → Id → Option Row) (o : Inst) : Prop where
   rowExists : ∃ row, db o.cls o.id = some row
   cachedOk : cfg.cacheValues o.cls = true → ∀ c v row, db o.cls o.id = some row → o.cached c = some v →
-    v = applyUpd row o.pending c
+    v = cfg.dec o.cls c (applyUpd row o.pending c)
 
 /-- the refinement invariant -/
 structure OrmValInv (cfg : Cfg) (s : State) : Prop where
@@ -205,6 +205,7 @@ def LibStep (cfg : Cfg) (s : State) : Op → Prop
   | .destroy h refs => ∀ o, s.objs h = some o →
       LibRefSteps cfg o.cls o.id s refs ∧ LiveTarget (opRefSteps cfg s o.cls o.id refs).1 h
   | .pickle h _ => LiveTarget s h
+  | .bulkDelete cls ids => ∀ h o, s.objs h = some o → o.obsolete = false → ¬ (o.cls = cls ∧ ids.contains o.id = true)
   | .oobUpdate .. => False
   | .oobDelete .. => False
   | .oobInsert .. => False
@@ -551,6 +552,7 @@ theorem flag_step (cfg : Cfg) (s : State) (op : Op) (hf : AllFlag cfg s) : AllFl
   | destroy h refs => exact flag_destroyRefs _ _ _ _ hf
   | pickle h fail => exact flag_pickle _ _ _ _ hf
   | drop h => exact flag_drop _ _ _ hf
+  | bulkDelete cls ids => exact allFlag_congr _ _ _ hf rfl
   | oobUpdate cls id c v => exact allFlag_congr _ _ _ hf rfl
   | oobDelete cls id => exact allFlag_congr _ _ _ hf rfl
   | oobInsert cls id vals =>
@@ -578,6 +580,17 @@ theorem inv_replace' (cfg : Cfg) (s s' : State) (h : Hnd) (o o' : Inst)
     OrmValInv cfg s' :=
   inv_replace cfg s s' h o o' hinv ho hobjs hcls hid hobs hdb (hflag h o' (by simp [hobjs])) hval
 
+/-- the tables changed only at rows no live held instance stands for -/
+theorem inv_dbagree (cfg : Cfg) (s s' : State) (hinv : OrmValInv cfg s) (ho : s'.objs = s.objs)
+    (hd : ∀ h o, s.objs h = some o → o.obsolete = false → s'.db o.cls o.id = s.db o.cls o.id) :
+    OrmValInv cfg s' := by
+  refine ⟨?_, by rw [ho]; exact hinv.flag, by rw [ho]; exact hinv.uniq⟩
+  intro h o hoo hl
+  rw [ho] at hoo
+  have hv := hinv.val h o hoo hl
+  have := hd h o hoo hl
+  exact ⟨by rw [this]; exact hv.rowExists, by rw [this]; exact hv.cachedOk⟩
+
 theorem objs_self (s : State) (h : Hnd) (o : Inst) (ho : s.objs h = some o) :
     s.objs = fun k => if k = h then some o else s.objs k := by
   funext k; by_cases hk : k = h <;> simp [hk, ho]
@@ -595,18 +608,19 @@ theorem db_ne_of_setRowDb (db : Cls → Id → Option Row) (cls : Cls) (id : Id)
 theorem valOK_sameDb (cfg : Cfg) (db : Cls → Id → Option Row) (o o' : Inst) (hv : ValOK cfg db o)
     (hc : o'.cls = o.cls) (hi : o'.id = o.id)
     (hcached : cfg.cacheValues o.cls = true → ∀ c v row, db o.cls o.id = some row → o'.cached c = some v →
-      v = applyUpd row o'.pending c) : ValOK cfg db o' :=
+      v = cfg.dec o.cls c (applyUpd row o'.pending c)) : ValOK cfg db o' :=
   ⟨by rw [hc, hi]; exact hv.rowExists, by rw [hc, hi]; exact hcached⟩
 
-theorem loadRow_ok (n : Nat) (row : Row) (c : Col) (v : Val) (h : loadRow n row c = some v) : v = row c := by
+theorem loadRow_ok (d : Col → Val → Val) (n : Nat) (row : Row) (c : Col) (v : Val)
+    (h : loadRow d n row c = some v) : v = d c (row c) := by
   unfold loadRow at h; split at h <;> simp at h; exact h.symm
 
-theorem cacheAll_loadRow_ok (n : Nat) (row : Row) (p : Pend) (c : Col) (v : Val)
-    (h : cacheAll (loadRow n row) p c = some v) : v = applyUpd row p c := by
+theorem cacheAll_loadRow_ok (d : Col → Val → Val) (n : Nat) (row : Row) (p : Pend) (c : Col) (v : Val)
+    (h : cacheAll d (loadRow d n row) p c = some v) : v = d c (applyUpd row p c) := by
   unfold cacheAll at h; unfold applyUpd
   split at h
   · injection h with h; exact h.symm
-  · exact loadRow_ok _ _ _ _ h
+  · exact loadRow_ok _ _ _ _ _ h
 
 theorem applyUpd_applyUpd_nil (row : Row) (p : Pend) (c : Col) : applyUpd (applyUpd row p) [] c = applyUpd row p c := by
   simp [applyUpd_nil]
@@ -640,7 +654,7 @@ theorem inv_refresh (cfg : Cfg) (s : State) (h : Hnd) (hinv : OrmValInv cfg s) :
         simp only [setObj] at hr
         rw [hrow] at hr; injection hr with hr; subst hr
         simp only [hp, applyUpd_nil]
-        exact loadRow_ok _ _ _ _ hcv
+        exact loadRow_ok _ _ _ _ _ hcv
 
 
 theorem inv_read (cfg : Cfg) (s : State) (h : Hnd) (c : Col) (hinv : OrmValInv cfg s) :
@@ -668,14 +682,14 @@ theorem inv_read (cfg : Cfg) (s : State) (h : Hnd) (c : Col) (hinv : OrmValInv c
             intro _ k v row' hr hcv
             simp only [setObj, logStmt] at hr
             rw [hrow] at hr; injection hr with hr; subst hr
-            exact cacheAll_loadRow_ok _ _ _ _ _ hcv
+            exact cacheAll_loadRow_ok _ _ _ _ _ _ hcv
       · split
         · exact hinv
         · split <;> exact inv_congr _ _ _ hinv rfl rfl
 
-theorem setCached_ok (cached : Col → Option Val) (c k : Col) (v w : Val) (row : Row) (p : Pend)
-    (hold : ∀ k w, cached k = some w → w = applyUpd row p k)
-    (h : setCached cached c v k = some w) : w = applyUpd row (passign c v p) k := by
+theorem setCached_ok (d : Col → Val → Val) (cached : Col → Option Val) (c k : Col) (v w : Val) (row : Row) (p : Pend)
+    (hold : ∀ k w, cached k = some w → w = d k (applyUpd row p k))
+    (h : setCached cached c (d c v) k = some w) : w = d k (applyUpd row (passign c v p) k) := by
   unfold setCached at h
   by_cases hk : k = c
   · subst hk; simp only [if_true, Option.some.injEq] at h
@@ -684,9 +698,9 @@ theorem setCached_ok (cached : Col → Option Val) (c k : Col) (v w : Val) (row 
     have := hold k w h
     simpa [applyUpd, plookup_passign_ne _ _ _ _ hk] using this
 
-theorem cacheAll_ok (cached : Col → Option Val) (new p : Pend) (k : Col) (w : Val) (row : Row) (hs : PSorted new)
-    (hold : ∀ k w, cached k = some w → w = applyUpd row p k)
-    (h : cacheAll cached new k = some w) : w = applyUpd row (pmerge new p) k := by
+theorem cacheAll_ok (d : Col → Val → Val) (cached : Col → Option Val) (new p : Pend) (k : Col) (w : Val) (row : Row)
+    (hs : PSorted new) (hold : ∀ k w, cached k = some w → w = d k (applyUpd row p k))
+    (h : cacheAll d cached new k = some w) : w = d k (applyUpd row (pmerge new p) k) := by
   unfold cacheAll at h
   unfold applyUpd
   rw [plookup_pmerge new p hs k]
@@ -697,23 +711,23 @@ theorem cacheAll_ok (cached : Col → Option Val) (new p : Pend) (k : Col) (w : 
     simpa [hv, applyUpd] using this
 
 /-- row after an UPDATE, seen through a cache that was right before and is patched with the same values -/
-theorem cacheAll_after_update (cached : Col → Option Val) (new : Pend) (k : Col) (w : Val) (row : Row)
-    (hold : ∀ k w, cached k = some w → w = row k)
-    (h : cacheAll cached new k = some w) : w = applyUpd row new k := by
+theorem cacheAll_after_update (d : Col → Val → Val) (cached : Col → Option Val) (new : Pend) (k : Col) (w : Val)
+    (row : Row) (hold : ∀ k w, cached k = some w → w = d k (row k))
+    (h : cacheAll d cached new k = some w) : w = d k (applyUpd row new k) := by
   unfold cacheAll at h
   unfold applyUpd
   split at h
   · injection h with h; exact h.symm
   · exact hold k w h
 
-theorem setCached_eq_cacheAll (cached : Col → Option Val) (c : Col) (v : Val) :
-    setCached cached c v = cacheAll cached [(c, v)] := by
+theorem setCached_eq_cacheAll (d : Col → Val → Val) (cached : Col → Option Val) (c : Col) (v : Val) :
+    setCached cached c (d c v) = cacheAll d cached [(c, v)] := by
   funext k; unfold setCached cacheAll; by_cases hk : k = c <;> simp [plookup, hk]
 
 theorem valOK_afterUpdate (cfg : Cfg) (db : Cls → Id → Option Row) (o o' : Inst) (p : Pend)
     (hv : ValOK cfg db o) (hc : o'.cls = o.cls) (hi : o'.id = o.id) (hp : o'.pending = [])
     (hcached : cfg.cacheValues o.cls = true → ∀ row, db o.cls o.id = some row → ∀ k w, o'.cached k = some w →
-      w = applyUpd row p k) :
+      w = cfg.dec o.cls k (applyUpd row p k)) :
     ValOK cfg (updRow db o.cls o.id p) o' := by
   obtain ⟨row, hrow⟩ := hv.rowExists
   constructor
@@ -755,7 +769,7 @@ theorem inv_setattr (cfg : Cfg) (s : State) (h : Hnd) (c : Col) (inp : Inp) (fai
           intro _
           refine valOK_sameDb cfg _ o _ hv rfl rfl ?_
           intro hcv k w row hr hk
-          exact setCached_ok _ _ _ _ _ _ _ (fun k w hkw => hv.cachedOk hcv k w row hr hkw) hk
+          exact setCached_ok _ _ _ _ _ _ _ _ (fun k w hkw => hv.cachedOk hcv k w row hr hkw) hk
         · rename_i hlz
           have hp : o.pending = [] := hfo.eagerNoPending (by simpa using hlz)
           split
@@ -767,11 +781,11 @@ theorem inv_setattr (cfg : Cfg) (s : State) (h : Hnd) (c : Col) (inp : Inp) (fai
             · refine inv_replace cfg s _ h o _ hinv ho rfl rfl rfl id (sendUpdate_db_ne s o _ false hl)
                 (flagOK_of_eq _ o _ hfo rfl rfl rfl) ?_
               intro _
-              show ValOK cfg (updRow s.db o.cls o.id [(c, v)]) _
+              show ValOK cfg (updRow s.db o.cls o.id [(c, cfg.enc o.cls c v)]) _
               refine valOK_afterUpdate cfg s.db o _ _ hv rfl rfl hp ?_
               intro hcv row hr k w hk
               rw [setCached_eq_cacheAll] at hk
-              refine cacheAll_after_update _ _ _ _ _ ?_ hk
+              refine cacheAll_after_update _ _ _ _ _ _ ?_ hk
               intro k w hkw
               have := hv.cachedOk hcv k w row hr hkw
               rwa [hp, applyUpd_nil] at this
@@ -779,7 +793,7 @@ theorem inv_setattr (cfg : Cfg) (s : State) (h : Hnd) (c : Col) (inp : Inp) (fai
               refine inv_replace cfg s _ h o o hinv ho (objs_self s h o ho) rfl rfl id (sendUpdate_db_ne s o _ false hl)
                 hfo ?_
               intro _
-              show ValOK cfg (updRow s.db o.cls o.id [(c, v)]) _
+              show ValOK cfg (updRow s.db o.cls o.id [(c, cfg.enc o.cls c v)]) _
               exact valOK_afterUpdate cfg s.db o o _ hv rfl rfl hp (fun h' => absurd h' hcv)
 
 
@@ -798,7 +812,7 @@ theorem inv_set (cfg : Cfg) (s : State) (h : Hnd) (kvs : List (Col × Inp)) (fai
     · split
       · exact hinv
       · rename_i p hp
-        have hps := validate_sorted kvs p hp
+        have hps := validate_sorted _ kvs p hp
         split
         · rename_i hlz
           refine inv_replace cfg s _ h o _ hinv ho rfl rfl rfl id (fun c i hne => absurd rfl hne) ?_ ?_
@@ -809,7 +823,7 @@ theorem inv_set (cfg : Cfg) (s : State) (h : Hnd) (kvs : List (Col × Inp)) (fai
           · intro _
             refine valOK_sameDb cfg _ o _ hv rfl rfl ?_
             intro hcv k w row hr hk
-            exact cacheAll_ok _ _ _ _ _ _ hps (fun k w hkw => hv.cachedOk hcv k w row hr hkw) hk
+            exact cacheAll_ok _ _ _ _ _ _ _ hps (fun k w hkw => hv.cachedOk hcv k w row hr hkw) hk
         · rename_i hlz
           have hpe : o.pending = [] := hfo.eagerNoPending (by simpa using hlz)
           split
@@ -826,7 +840,7 @@ theorem inv_set (cfg : Cfg) (s : State) (h : Hnd) (kvs : List (Col × Inp)) (fai
                 show ValOK cfg (updRow s.db o.cls o.id p) _
                 refine valOK_afterUpdate cfg s.db o _ _ hv rfl rfl hpe ?_
                 intro hcv row hr k w hk
-                refine cacheAll_after_update _ _ _ _ _ ?_ hk
+                refine cacheAll_after_update _ _ _ _ _ _ ?_ hk
                 intro k w hkw
                 have := hv.cachedOk hcv k w row hr hkw
                 rwa [hpe, applyUpd_nil] at this
@@ -894,7 +908,7 @@ theorem inv_reload (cfg : Cfg) (s : State) (h : Hnd) (hinv : OrmValInv cfg s)
       simp only [setObj, logStmt] at hr
       rw [hrow] at hr; injection hr with hr; subst hr
       simp only [hpend o ho, applyUpd_nil]
-      exact loadRow_ok _ _ _ _ hcv
+      exact loadRow_ok _ _ _ _ _ hcv
 
 theorem inv_sync (cfg : Cfg) (s : State) (h : Hnd) (fail : Bool)
     (hinv : OrmValInv cfg s) (hlive : LiveTarget s h) : OrmValInv cfg (opSync cfg s h fail).1 := by
@@ -1034,7 +1048,7 @@ theorem valOK_fresh (cfg : Cfg) (db : Cls → Id → Option Row) (cls : Cls) (id
   · intro _ c v row' hr hcv
     simp only [freshInst] at hr hcv ⊢
     rw [h] at hr; injection hr with hr; subst hr
-    rw [applyUpd_nil]; exact loadRow_ok _ _ _ _ hcv
+    rw [applyUpd_nil]; exact loadRow_ok _ _ _ _ _ hcv
 
 theorem inv_create (cfg : Cfg) (s : State) (h : Hnd) (cls : Cls) (id : Id) (kvs : List (Col × Inp))
     (hinv : OrmValInv cfg s) : OrmValInv cfg (opCreate cfg s h cls id kvs).1 := by
@@ -1222,6 +1236,12 @@ theorem inv_step (cfg : Cfg) (s : State) (op : Op) (hinv : OrmValInv cfg s) (hli
   | destroy h refs => exact inv_destroyRefs _ _ _ _ hinv hlib
   | pickle h fail => exact inv_pickle _ _ _ _ hinv hlib
   | drop h => exact inv_drop _ _ _ hinv
+  | bulkDelete cls ids =>
+    refine inv_dbagree _ _ _ hinv rfl ?_
+    intro h o ho hl
+    have := hlib h o ho hl
+    simp only [step, logStmt]
+    rw [if_neg this]
   | oobUpdate cls id c v => exact absurd hlib (by simp [LibStep])
   | oobDelete cls id => exact absurd hlib (by simp [LibStep])
   | oobInsert cls id vals => exact absurd hlib (by simp [LibStep])
@@ -1422,5 +1442,23 @@ theorem nlw_destroy (cfg : Cfg) (s : State) (h : Hnd) : NoLazyWrite cfg s (opDes
   split
   · exact nlw_refl _ _
   · exact nlw_one _ _ _ _ rfl rfl
+
+theorem plookup_foldl_passign_enc (e : Col → Val → Val) (as : List (Col × Val)) (p0 : Pend) (c : Col) :
+    plookup c (as.foldl (fun p kv => passign kv.1 (e kv.1 kv.2) p) p0) =
+      match latest as c with
+      | some v => some (e c v)
+      | none => plookup c p0 := by
+  induction as generalizing p0 with
+  | nil => simp [latest]
+  | cons a r ih =>
+    obtain ⟨c', v⟩ := a
+    simp only [List.foldl_cons, latest]
+    rw [ih]
+    cases hl : latest r c with
+    | some w => simp
+    | none =>
+      by_cases hc : c = c'
+      · subst hc; simp [plookup_passign_same]
+      · simp [hc, plookup_passign_ne _ _ _ _ hc]
 
 end SqlObjVerif.OrmVal
